@@ -74,6 +74,9 @@ enum Op {
     Modify { t: u8, val: Val },
     /// reload with an emission of `cs` on a helper thread between unlock and cache rebuild
     ReloadRacing { t: u8, val: Val, cs: u8 },
+    /// the helper thread hits callsite `cs` for the first time; while its registration is inside a
+    /// layer's register_callsite, thread `t` reloads
+    ReloadWhileRegistering { t: u8, val: Val, cs: u8 },
     /// modify whose closure keeps the write lock while a helper thread emits `cs`
     ModifyHeld { t: u8, val: Val, cs: u8 },
     /// reload to `val`; while its cache rebuild is walking the callsites (at the k-th
@@ -332,6 +335,79 @@ fn run_case(case: &Case) -> Outcome {
                     fail!(i, "published max level wrong after reload", "{e}");
                 }
             }
+            Op::ReloadWhileRegistering { t, val, cs } => {
+                let (t, cs) = (*t as usize % 2, *cs % 15);
+                let fresh = !hit[cs as usize];
+                let old = cur.clone();
+                let (sig_tx, sig_rx) = channel::<()>();
+                let (rel_tx, rel_rx) = channel::<()>();
+                let (sig_tx, rel_rx) = (Mutex::new(sig_tx), Mutex::new(rel_rx));
+                let fired = Arc::new(std::sync::atomic::AtomicBool::new(false));
+                let f2 = fired.clone();
+                *vp_sub::REGISTER_HOOK.lock().unwrap() = Some(Arc::new(move || {
+                    // only the helper's registration, only once
+                    if vp_rec::tag() == 9 && !f2.swap(true, std::sync::atomic::Ordering::SeqCst) {
+                        let _ = sig_tx.lock().unwrap().send(());
+                        // a correct reload cannot finish before this registration does (it needs
+                        // the registry's write lock), so this wait normally times out
+                        let _ = rel_rx.lock().unwrap().recv_timeout(std::time::Duration::from_millis(25));
+                    }
+                }));
+                let _ = req_tx.lock().unwrap().send(cs);
+                // wait until the helper is inside its registration (or has finished without one)
+                let (mut in_registration, mut got_done) = (false, false);
+                let t0 = std::time::Instant::now();
+                while t0.elapsed() < std::time::Duration::from_secs(2) {
+                    if sig_rx.try_recv().is_ok() {
+                        in_registration = true;
+                        break;
+                    }
+                    if done_rx.lock().unwrap().try_recv().is_ok() {
+                        got_done = true; // the emission finished without registering anything
+                        break;
+                    }
+                    std::thread::sleep(std::time::Duration::from_micros(100));
+                }
+                let (h, v) = (handle.clone(), val.clone());
+                let r = st.run(t, move |_| h.reload(&v, false, None).is_ok());
+                let _ = rel_tx.send(());
+                *vp_sub::REGISTER_HOOK.lock().unwrap() = None;
+                match r {
+                    Ok(true) => {}
+                    Ok(false) => fail!(i, "reload failed although the collector is alive", "Err returned"),
+                    Err(e) => fail!(i, "panic: reload", "{e}"),
+                }
+                if !got_done && done_rx.lock().unwrap().recv_timeout(std::time::Duration::from_secs(10)).is_err() {
+                    std::mem::forget(st);
+                    return Outcome { verdict: vp_engine::Verdict::Inconclusive("helper emission did not finish within 10 s".into()), nontrivial: false, classes: vec![], excluded_known: 0 };
+                }
+                // the racing emission itself may be judged by either value
+                let (g1, g2) = (count(&log1, cs), count(&log2, cs));
+                let ok1 = g1 == l1_accepts(&old, cs) as usize || g1 == l1_accepts(val, cs) as usize;
+                let ok2 = g2 == l2_accepts(&old, cs) as usize || g2 == l2_accepts(val, cs) as usize;
+                if !ok1 || !ok2 {
+                    fail!(i, "racing emission judged neither by the old nor by the new value", "first hit of callsite {cs} on the helper thread while thread {t} reloads: filtered leaf got {g1}, neighbour got {g2}; old value {:?}", old);
+                }
+                cur = val.clone();
+                hit[cs as usize] = true;
+                if in_registration && fresh {
+                    classes.push("reload_while_a_callsite_registers".into());
+                }
+                if let Err(e) = check_max(&cur) {
+                    fail!(i, "published max level wrong after reload", "{e}");
+                }
+                // now that both have returned, the callsite is judged by the new value
+                if let Err(e) = st.run(t, move |_| emit_event(cs)) {
+                    fail!(i, "panic: emit", "{e}");
+                }
+                let (w1, w2) = (l1_accepts(&cur, cs), l2_accepts(&cur, cs));
+                let (g1, g2) = (count(&log1, cs), count(&log2, cs));
+                if g1 != w1 as usize || g2 != w2 as usize {
+                    fail!(i, "a callsite that registered while a reload was under way keeps the old verdict", "callsite {cs}: filtered leaf got {g1} (expected {}), neighbour got {g2} (expected {})", w1 as u8, w2 as u8);
+                }
+                verdict_at_hit[cs as usize] = Some(w1);
+                last_hit_thread[cs as usize] = Some(t as u8);
+            }
             Op::ModifyHeld { t, val, cs } => {
                 let (t, cs) = (*t as usize % 2, *cs % 15);
                 let old = cur.clone();
@@ -487,6 +563,7 @@ impl Property for C12 {
             3 => (t(), val_strategy()).prop_map(|(t, val)| Op::Reload { t, val }),
             1 => (t(), val_strategy()).prop_map(|(t, val)| Op::Modify { t, val }),
             1 => (t(), val_strategy(), cs()).prop_map(|(t, val, cs)| Op::ReloadRacing { t, val, cs }),
+            1 => (t(), val_strategy(), cs()).prop_map(|(t, val, cs)| Op::ReloadWhileRegistering { t, val, cs }),
             1 => (t(), val_strategy(), val_strategy(), 0u8..4).prop_map(|(t, val, val2, k)| Op::ReloadDuringRebuild { t, val, val2, k }),
         ];
         let max = tier.pick(24usize, 40usize);
@@ -508,7 +585,7 @@ impl Property for C12 {
         run_case(case)
     }
     fn rule(&self) -> String {
-        "histories of <=24 (thorough <=40) ops {Emit at one of 15 level x target macro callsites on thread A or B, Reload, Modify, Reload with an emission on a helper thread between write-unlock and cache rebuild (hook), Reload during whose cache rebuild a helper thread starts a second reload (hook in a layer's register_callsite), Modify holding the lock while the helper emits (6% of cases), drop collector then reload (15%)} over a stack with one reloadable Option<filter> (global layer inside / outside, or per-layer filter) between values {LevelFilter, Targets table, static EnvFilter table, None}, plus an unfiltered neighbour layer; fresh process per history. non-trivial: a reload flips the verdict of a callsite that was hit before and the next hit of that callsite comes from the other thread; distinct by case".into()
+        "histories of <=24 (thorough <=40) ops {Emit at one of 15 level x target macro callsites on thread A or B, Reload, Modify, Reload with an emission on a helper thread between write-unlock and cache rebuild (hook), Reload while the helper thread's first hit of a callsite is inside its registration (hook in a layer's register_callsite), Reload during whose cache rebuild a helper thread starts a second reload (hook in a layer's register_callsite), Modify holding the lock while the helper emits (6% of cases), drop collector then reload (15%)} over a stack with one reloadable Option<filter> (global layer inside / outside, or per-layer filter) between values {LevelFilter, Targets table, static EnvFilter table, None}, plus an unfiltered neighbour layer; fresh process per history. non-trivial: a reload flips the verdict of a callsite that was hit before and the next hit of that callsite comes from the other thread; distinct by case".into()
     }
     fn assumptions(&self) -> Vec<String> {
         vec![
